@@ -178,6 +178,8 @@ def check(run):
     # at the local eigensolver)
     from props import C08_sweep_sym
     guarded(run, C08_sweep_sym.prove)
+    from props import C08_tree_sweep_sym
+    guarded(run, C08_tree_sweep_sym.prove)
     from props import C04_kernel
     guarded(run, C04_kernel.prove, only_updates=True)      # renormalised-basis update (single root and state-averaged) in kernel-stub mode
     from props import C08_tree
